@@ -222,11 +222,10 @@ Proof.
   rewrite IHm. reflexivity.
 Qed.
 
-Lemma checker_total f :
-  (f_feats f <> [] \/ f_traces f <> []) -> exists cs, violations f = Some cs.
+Lemma length_from_features_some f :
+  (f_feats f <> [] \/ f_traces f <> []) -> exists n, length_from_features f = Some n.
 Proof.
-  intros Hne. unfold violations, lends.
-  destruct (f_evcount f); [eexists; reflexivity|].
+  intros Hne. unfold length_from_features.
   destruct (sort_by_rank (reader_entries f)) as [|e es] eqn:ES.
   - exfalso. pose proof (sort_length (reader_entries f)) as L.
     rewrite ES in L. unfold reader_entries in L.
@@ -237,6 +236,15 @@ Proof.
       destruct (Z.of_nat (S (length l)) =? 0) eqn:E; [lia|].
       cbn [length] in L. lia.
   - destruct (first_nonzero (e :: es)); eexists; reflexivity.
+Qed.
+
+Lemma checker_total f :
+  (f_feats f <> [] \/ f_traces f <> []) -> exists cs, violations f = Some cs.
+Proof.
+  intros Hne. destruct (length_from_features_some f Hne) as [m Hm].
+  unfold violations, lends. destruct (f_evcount f) as [z|].
+  - destruct (0 <=? z); [eexists; reflexivity|]. rewrite Hm. eexists; reflexivity.
+  - rewrite Hm. eexists; reflexivity.
 Qed.
 
 Lemma missing_event_count_flagged f :
@@ -250,4 +258,45 @@ Proof.
   - unfold key_present. rewrite Z.eqb_refl, He. reflexivity.
   - exact H.
   - discriminate.
+Qed.
+
+(* ------------------------------------------------------------------ *)
+(* The sentence about compressed or repacked copies receiving the same *)
+(* violations is false for arbitrary (corrupted) files: the copy loses  *)
+(* external links and unknown features, dclab-compress also rewrites the *)
+(* metadata the writer completes.  The harness checks that the copies   *)
+(* are exactly those the model predicts (run_copy_flat).                *)
+(* ------------------------------------------------------------------ *)
+Lemma repack_same_violations_refuted :
+  exists f, f_extlink f = true
+            /\ violations (copy_model f) <> violations f.
+Proof. exists ex_corrupt. split; [reflexivity|]. vm_compute. discriminate. Qed.
+
+(* a file whose event count contradicts its features: the compressed copy
+   has the count of the first feature again *)
+Definition ex_wrong_count : file :=
+  mkFile (Some 5) [mkFeat 0 (Plain 2); mkFeat 1 (Plain 2)] 9 [] [] false
+         (Some 5) (Some 4) (Some 64) (Some 64) (Some 64) (Some 64)
+         [0; 2; 3; 4; 5; 6; 9; 10; 14; 16] false
+         None [] None [] [] None [] false [] None.
+
+Lemma compress_same_violations_refuted :
+  exists f g, f_extlink f = false /\ f_unknown f = []
+              /\ violations f = Some [FeatureSize 0; FeatureSize 1]
+              /\ compress_model f = Some g /\ violations g = Some [].
+Proof.
+  exists ex_wrong_count. eexists.
+  split; [reflexivity|]. split; [reflexivity|].
+  split; [vm_compute; reflexivity|]. split; [reflexivity|].
+  vm_compute. reflexivity.
+Qed.
+
+(* ... and true whenever the writer's completion has nothing to change *)
+Lemma compress_same_violations_partial f :
+  f_extlink f = false -> (forall u, In u (f_unknown f) -> u = 0) ->
+  compress_model f = Some (copy_model f) ->
+  exists g, compress_model f = Some g /\ violations g = violations f.
+Proof.
+  intros He Hu Hc. exists (copy_model f). split; [exact Hc|].
+  apply repack_same_violations; assumption.
 Qed.
